@@ -483,7 +483,8 @@ theorem resolve_canonical_order (u : Universe) (o : List Text) (hp : o.Perm (Res
     (installIfFixed : Bool) (addedOrder : List Text → List Text) (world : List Text) (dq₀ : List Nat) :
     Resolver.resolve ⟨u, o, .eq, installIfFixed, addedOrder⟩ world dq₀ =
       Resolver.resolve ⟨u, Resolver.ownNames u, .eq, installIfFixed, addedOrder⟩ world dq₀ :=
-  Cmp.resolve_rel ⟨rfl, hp, rfl, rfl, rfl, rfl⟩ world dq₀
+  Cmp.resolve_rel (c₁ := ⟨u, o, .eq, installIfFixed, addedOrder⟩)
+    (c₂ := ⟨u, Resolver.ownNames u, .eq, installIfFixed, addedOrder⟩) ⟨rfl, hp, rfl, rfl, rfl, rfl⟩ world dq₀
 
 /-- the F08b universe: `pa` provides `virt=abc`, `pb` provides `virt=xyz` -/
 def f08bCfg (bothBad : Ordering) : Resolver.Cfg :=
